@@ -539,3 +539,59 @@ Qed.
 Lemma sender_attrs_none : forall s,
   (s = None \/ exists sn, s = Some sn /\ sender_track sn = None) -> sender_attrs s = [].
 Proof. intros s [->|[sn [-> H]]]; cbn; auto. now rewrite H. Qed.
+
+(* ---------- sections identified by mid ---------- *)
+
+Definition has_mid (m : string) (s : sec) : bool :=
+  match sc_mid s with Some x => String.eqb x m | None => false end.
+
+Lemma filter_unique_key : forall (l : list tcv) t,
+  NoDup (map t_mid l) -> In t l ->
+  filter (has_mid (t_mid t)) (map sec_of_tcv l) = [sec_of_tcv t].
+Proof.
+  induction l as [|x l IH]; intros t Hnd Hin; [contradiction|].
+  cbn [map] in *. inversion Hnd as [|? ? Hni Hnd']; subst.
+  cbn [filter]. unfold has_mid at 1. cbn [sec_of_tcv render_msec sc_mid].
+  destruct Hin as [->|Hin].
+  - rewrite String.eqb_refl. f_equal.
+    clear IH Hnd Hnd'. induction l as [|y l IHl]; cbn; auto.
+    unfold has_mid at 1. cbn [sc_mid].
+    destruct (String.eqb (t_mid y) (t_mid t)) eqn:E.
+    + apply String.eqb_eq in E. exfalso. apply Hni. cbn. now left.
+    + apply IHl. intro Hc. apply Hni. cbn. now right.
+  - destruct (String.eqb (t_mid x) (t_mid t)) eqn:E.
+    + apply String.eqb_eq in E. exfalso. apply Hni. rewrite E. now apply in_map.
+    + now apply IH.
+Qed.
+
+Lemma one_section_per_mid : forall p p' d fx,
+  create_offer p = (p', ok_desc d, fx) ->
+  NoDup (map t_mid (p_tcvs p')) ->
+  forall t, In t (p_tcvs p') ->
+    filter (has_mid (t_mid t)) (media_secs d) = [sec_of_tcv t].
+Proof.
+  intros p p' d fx H Hnd t Hin. apply sections_of_offer in H.
+  destruct H as [m [u [Hsecs [Hperm _]]]]. rewrite Hsecs.
+  apply filter_unique_key.
+  - eapply Permutation_NoDup; [|exact Hnd]. apply Permutation_map, Permutation_sym, Hperm.
+  - eapply Permutation_in; [apply Permutation_sym, Hperm|exact Hin].
+Qed.
+
+(* CreateOffer numbers an unnumbered transceiver from greaterMid, which looks at
+   the current remote description and at transceivers earlier in the list only:
+   with a pending remote offer whose mid "0" was given to a later transceiver,
+   two transceivers end up with mid "0" *)
+Definition dup_mid_history : list op :=
+  [OAddTcvKind Audio (Some Recvonly) {| i_trk := {| k_id := ""; k_stream := ""; k_rid := "" |};
+                                         i_ssrc := 0; i_rtx := 0; i_fec := 0 |};
+   OSetRemote TOffer [{| sc_mid := Some "0"; sc_media := MVideo; sc_dir := Some Sendrecv; sc_attrs := [] |}]
+              {| rtx_audio := false; rtx_video := false; fec_audio := false; fec_video := false |}].
+
+Lemma dup_mid_refuted :
+  exists p' d fx,
+    create_offer (run_ops (pc_init false) dup_mid_history) = (p', ok_desc d, fx)
+    /\ map t_mid (p_tcvs p') = ["0"; "0"].
+Proof.
+  destruct (create_offer (run_ops (pc_init false) dup_mid_history)) as [[p' o] fx] eqn:E.
+  vm_compute in E. inversion E; subst. eexists _, _, _. split; reflexivity.
+Qed.
